@@ -170,9 +170,9 @@ def run_shard(desc):
             s = FAMILIES[fam](depth)
             budget = 60
             if prev is not None:
-                budget = int(max(60, 30 * max(prev[1], 0.05) * (depth / prev[0]) ** 3))
+                budget = int(max(60, 30 * max(prev[1], 0.002) * (depth / prev[0]) ** 3))
             steps = [{"op": "parse", "text": s, "want": "ed", "cpu_budget_s": budget}, {"op": "exec", "text": s}]
-            run = common.run_vexec(steps, wd, "ladder-%s-%d" % (fam, depth), profile, stack_mb=8, timeout=1500)
+            run = common.run_vexec(steps, wd, "ladder-%s-%d" % (fam, depth), profile, stack_mb=8, timeout=min(budget, 3000) + 600)
             kind_, detail = common.crash_verdict(run, "ladder")
             part["evaluations"] += 1
             C["ladder_rungs"] += 1
@@ -251,7 +251,7 @@ def run(rep, tier):
     ns = 16000 if tier == "quick" else 400000
     per = 1000 if tier == "quick" else 12500
     shards += [("soup", i, 0, per, "release" if i % 2 else "verifdbg") for i in range(ns // per)]
-    rungs = [10, 100, 1000, 3000, 100000] if tier == "quick" else RUNGS + [300000, 1000000]
+    rungs = [10, 100, 1000, 3000, 40000] if tier == "quick" else [10, 100, 1000, 3000, 10000, 20000, 40000, 100000, 1000000]
     for fam in FAMILIES:
         shards.append(("ladder", 0, 0, (fam, rungs), "verifdbg"))
     for nm, s in length_inputs(tier):
